@@ -302,6 +302,12 @@ class Engine:
             v = VIter(s, en.rstrip("?") or None, isn)
             v.elem_nullable = en.endswith("?")
             return v, facts
+        if ty.startswith("seq:"):
+            # a list argument that is only read: indexable, re-iterable.  seq:rows = a list of row lists (matrix): the elements
+            # are row objects whose cells are row_cells(row)
+            en = ty[4:]
+            s = z3.Const(nm, RSeq)
+            return VSeq(s, None if en == "rows" else (en or None), "rows" if en == "rows" else "list"), facts
         if ty.startswith("list:"):
             t = z3.Const(nm, Ref)
             facts.append(t != NONE)
@@ -979,6 +985,8 @@ class Engine:
         raise Unsupported(f"iteration over {type(it).__name__}")
 
     def elem_value(self, term, cname, it=None):
+        if it is not None and isinstance(it, VSeq) and it.kind == "rows":
+            return VSeq(T.row_cells(term), None, "list")
         if it is not None and isinstance(it, VIter) and getattr(it, "elem_nullable", False):
             return VRef(term, cname, "obj")
         return VRef(term, cname, "obj" if cname else "opaque")
@@ -997,7 +1005,9 @@ class Engine:
             self._loop_alloc_mark[id(ls)] = len(path.allocs)
         return ls.fn(L)
 
-    def assume_inv(self, q: Path, inv: LoopInv, entry_st: State):
+    def assume_inv(self, q: Path, inv: LoopInv, entry_st: State, finished=False):
+        """finished: the loop is over (exit state) - its facts stay for good; otherwise they describe the head of an iteration
+        of an enclosing loop and a nested invariant that `supersedes` may drop them"""
         q.env.update(inv.define)
         if inv.supersedes:
             q.schemas = [s_ for s_ in q.schemas if not getattr(s_, "_from_loop_inv", False)]
@@ -1007,7 +1017,7 @@ class Engine:
         finally:
             for s_ in q.schemas[n0_:]:
                 try:
-                    s_._from_loop_inv = True
+                    s_._from_loop_inv = not finished
                 except Exception:
                     pass
 
@@ -1076,7 +1086,7 @@ class Engine:
         for n in assigned:
             if n in e.env:
                 e.env[n] = self.havoc_local(n, e.env[n])
-        self.assume_inv(e, self.call_inv(ls, 'exit', e, mk(e.env, T.ad_len(a))), entry_st)
+        self.assume_inv(e, self.call_inv(ls, 'exit', e, mk(e.env, T.ad_len(a))), entry_st, finished=True)
         if self.feasible(e):
             results.append((e, None))
         return results
@@ -1123,7 +1133,7 @@ class Engine:
         for nm in assigned:
             if nm in e.env:
                 e.env[nm] = self.havoc_local(nm, e.env[nm])
-        self.assume_inv(e, self.call_inv(ls, 'exit', e, mk(e.env, n)), entry_st)
+        self.assume_inv(e, self.call_inv(ls, 'exit', e, mk(e.env, n)), entry_st, finished=True)
         if self.feasible(e):
             results.append((e, None))
         return results
@@ -1231,7 +1241,7 @@ class Engine:
             if n in e.env:
                 e.env[n] = self.havoc_local(n, e.env[n])
         inve = self.call_inv(ls, 'exit', e, mk(e.env, seq))
-        self.assume_inv(e, inve, entry_st)
+        self.assume_inv(e, inve, entry_st, finished=True)
         if self.feasible(e):
             results.append((e, None))
         return results
